@@ -1,5 +1,5 @@
 #!/bin/bash
-# usage: tools/benignall.sh <pad|nocomment|rename>   -- all quick checks must stay silent on a behaviour-preserving rewrite of /repo
+# usage: tools/benignall.sh <pad|nocomment|rename|incdec>   -- all quick checks must stay silent on a behaviour-preserving rewrite of /repo
 cd "$(dirname "$0")/.."
 export PATH=/opt/veriftools/go1.26.8/bin:$PATH GOTOOLCHAIN=local GOFLAGS=-mod=mod GOPROXY=off GOSUMDB=off CGO_ENABLED=0; unset GOWORK
 MODE=${1:-pad}; W=/tmp/fgmut/benign$$; rm -rf $W; mkdir -p $W/ev
